@@ -22,7 +22,7 @@ PID = 'C12'
 DIGIT_LIMIT = 4300
 HEADER = ('From Coq Require Import List Bool Arith NArith String.\n'
           'From PT Require Import Lang.PSyntax Lang.Dec Lang.ParsePolish Lang.ParsePolishProofs Lang.WritePolish '
-          'Lang.RoundTrip Lang.PShow Lang.PRun.\n'
+          'Lang.RoundTrip Lang.ArgStr Lang.PShow Lang.PRun.\n'
           'Import ListNotations.\nOpen Scope string_scope.\nOpen Scope list_scope.\n')
 
 
@@ -129,7 +129,8 @@ def emit_tables(chk: Check, tb: dict) -> bool:
 
 def agree_obligations(chk: Check, tb: dict) -> None:
     g = gen_dir(PID)
-    exprs = [e for _, e, _ in AGREE_ITEMS] + ['agree_b polish_table polish_ascii_w', 'table_ok polish_table']
+    exprs = [e for _, e, _ in AGREE_ITEMS] + ['agree_b polish_table polish_ascii_w',
+                                             'match tlookup polish_table 58%N with None => true | _ => false end']
     ans = [a.strip() == 'true' for a in pl.eval_bools(PID, header(), exprs)]
     ob = [header(), 'From PTProps Require Import C12.\n']
     bad = []
@@ -140,12 +141,23 @@ def agree_obligations(chk: Check, tb: dict) -> None:
             ob.append(f'Lemma obl_agree_{name.replace(":", "_")}_refuted : {expr} = false.\n'
                       'Proof. vm_compute. reflexivity. Qed.\n')
     all_ok = ans[len(AGREE_ITEMS)]
+    colon_ok = ans[len(AGREE_ITEMS) + 1]
     chk.obligation('polish-ascii:agree_b', all_ok)
+    chk.obligation('polish:colon-not-a-symbol', colon_ok)
     if all_ok:
         ob.append('Lemma obl_agree : agree_b polish_table polish_ascii_w = true.\nProof. vm_compute. reflexivity. Qed.\n')
         ob.append(INSTANCES)
+        if colon_ok:
+            ob.append(ARG_INSTANCE)
     elif not bad:
         raise MachineryError('agree_b false but every item true')
+    if not colon_ok:
+        ob.append('Lemma obl_colon_refuted : tlookup polish_table 58%N <> None.\nProof. vm_compute. discriminate. Qed.\n')
+        sents = [['A', 0, 0], ['A', 1, 0]]
+        r = probe_json('probe_parse.py', ['argstr'], stdin=json.dumps([sents]))[0]
+        chk.violation('argstr:colon-is-a-symbol', "':' (the argstr separator) is a symbol of the Polish parse table; "
+                      f'argstr round trip of [a, b] gives {r}', dict(kind='argstr', sentences=sents),
+                      found_input=('error' in r or r.get('back') != r.get('orig')))
     write_if_changed(g / 'Obl.v', '\n'.join(ob))
     rc, out = coqc(g / 'Obl.v')
     if rc:
@@ -179,6 +191,15 @@ Proof. exact (C12_polish_roundtrip polish_table polish_ascii_w obl_agree). Qed.
 Theorem C12_polish_ascii_injective : forall s1 s2 w, roundtrippable s1 = true -> roundtrippable s2 = true ->
   write_polish polish_ascii_w s1 = Some w -> write_polish polish_ascii_w s2 = Some w -> s1 = s2.
 Proof. exact (C12_write_polish_injective polish_table polish_ascii_w obl_agree). Qed.
+'''
+
+
+ARG_INSTANCE = '''
+Lemma obl_colon : tlookup polish_table colon = None.
+Proof. vm_compute. reflexivity. Qed.
+Theorem C12_polish_argstr_roundtrip : forall ss, argument_ok ss = true ->
+  exists w, argstr polish_ascii_w ss = Some w /\\ from_argstr polish_table w = OK ss.
+Proof. exact (C12_argstr_roundtrip polish_table polish_ascii_w obl_agree obl_colon). Qed.
 '''
 
 
@@ -256,8 +277,9 @@ def run(args) -> int:
         return chk.finish()
     agree_obligations(chk, tb)
     chk.assumptions = props_assumptions(PID)
-    chk.theorems = ['C12_polish_roundtrip', 'C12_write_polish_injective', 'gen: C12_polish_ascii_roundtrip',
-                    'gen: C12_polish_ascii_injective']
+    chk.theorems = ['C12_polish_roundtrip', 'C12_write_polish_injective', 'C12_argstr_roundtrip',
+                    'gen: C12_polish_ascii_roundtrip', 'gen: C12_polish_ascii_injective',
+                    'gen: C12_polish_argstr_roundtrip']
     rng = random.Random(args.seed)
     sents = []
     seen = set()
@@ -404,9 +426,9 @@ def argstr_cases(chk: Check, rng, n):
     CH = 100
     exprs = []
     for i in range(0, len(args_), CH):
-        exprs.append('List.concat [' + '; '.join('argstr_case polish_ascii_w [' + '; '.join(pl.coq_sent(j) for j in a) + ']'
+        exprs.append('List.concat [' + '; '.join('argstr_case polish_table polish_ascii_w [' + '; '.join(pl.coq_sent(j) for j in a) + ']'
                                                 for a in args_[i:i + CH]) + ']')
-    model = [x for part in eval_nested(exprs, 'Arg', 1) for x in part]
+    model = [x for part in eval_nested(exprs, 'Arg', 2) for x in part]
     for a, r, m in zip(args_, real, model):
         chk.case(['argstr', a], nontrivial=True)
         chk.count('argstr_len', str(len(a)))
@@ -423,6 +445,9 @@ def argstr_cases(chk: Check, rng, n):
             raise MachineryError('argstr serialisation mismatch')
         elif r['back'] != sers or not r['equal']:
             chk.violation('argstr:roundtrip', f'Argument(argstr) of {sers} gives {r["back"]}', rep)
+        elif m[1] != 'OK ' + ';'.join(r['back']):
+            chk.violation('argstr:model-mismatch', f'from_argstr of {render_cps(r["argstr"])!r}: implementation '
+                          f'{r["back"]}, model {m[1][:200]!r}', dict(rep, expect_back=m[1]))
 
 
 def replay(path: str) -> int:
